@@ -71,8 +71,16 @@ def probe_projects():
     """-> list of dict(position, cls, text, files, expect_literals=[...])"""
     P = []
 
-    def add(position, cls, text, src, literals=()):
-        P.append({"position": position, "cls": cls, "text": text, "files": [("lib.rs", rg.PRELUDE + src)], "literals": list(literals)})
+    def add(position, cls, text, src, literals=(), config=None):
+        P.append({"position": position, "cls": cls, "text": text, "files": [("lib.rs", rg.PRELUDE + src)], "literals": list(literals), "config": config})
+
+    # --- naming-case settings
+    for ra in RENAME_ALL:
+        src = (rg.struct_src("Item", [("user_id", "i32"), ("http_status2", "String")]) + "use tauri::ipc::Channel;\n" +
+               rg.command_src("get_item", [("item_id", "i32"), ("on_event", "Channel<Item>"), ("opt_flag", "Option<bool>")], "Item") +
+               rg.command_src("only_channel", [("on_progress_update", "Channel<i32>")], "i32"))
+        add("default_parameter_case", ra, ra, src, config={"default_parameter_case": ra})
+        add("default_field_case", ra, ra, src, config={"default_field_case": ra})
 
     # --- struct field: serde(rename = "...")
     for cls, strs in RENAME_STRINGS:
@@ -173,7 +181,7 @@ def classify_error(e):
 
 def run_probe(a):
     cli, probe, mode = a
-    g = proj.generate(cli, probe["files"], mode=mode, tag="c01")
+    g = proj.generate(cli, probe["files"], mode=mode, config=probe.get("config"), tag="c01")
     try:
         if g.run.timed_out:
             return {"inconclusive": "watchdog"}
@@ -239,7 +247,7 @@ def run(tier):
             if sig in seen:
                 continue
             seen.add(sig)
-            v.violation(sig, "%s mode, %s = %r: %s" % (mode, p["position"], p["text"], detail), proj.witness_of(p["files"], mode))
+            v.violation(sig, "%s mode, %s = %r: %s" % (mode, p["position"], p["text"], detail), proj.witness_of(p["files"], mode, config=p.get("config")))
     # type-expression batches (depth <= 2 chains in quick, <= 3 in thorough) — ill-nested types are syntax faults
     types = rg.chains(2 if tier == "quick" else 3)
     for _ in range(100 if tier == "quick" else 2000):
